@@ -144,10 +144,44 @@ Proof.
   unfold ack_facts, tcp_sent_syn, tcp_sent_fin in *. rewrite B1, B2, B3, B10. exact H.
 Qed.
 
+(* how exactly a segment moves the ghost: not at all; a SYN accepted in LISTEN starts a new epoch
+   with ISS = the context's next ISN; otherwise SND.UNA advances by d >= 0 sequence numbers within
+   the epoch, and d > 0 only for a non-RST segment whose acknowledgement number is exactly the new
+   SND.UNA *)
+Definition proc_ghost (cx : ctx) (g : ghost) (s : socket) (r : tcp_repr) (g' : ghost) : Prop :=
+  g' = g \/
+  (s_state s = Listen /\ r_control r = CSyn /\ g_phase g = PSyn /\ g_fin g = false /\
+   g_stream g = [] /\
+   g_iss g' = cx_isn cx /\ g_stream g' = [] /\ g_fin g' = false /\ g_phase g' = PSyn /\
+   g_acked g' = 0) \/
+  (g_iss g' = g_iss g /\ g_stream g' = g_stream g /\ g_fin g' = g_fin g /\
+   (g_phase g <> PSyn -> g_phase g' <> PSyn) /\
+   exists d, 0 <= d /\ g_una g' = g_una g + d /\ (g_phase g = PSyn -> d <= 1) /\
+     (0 < d -> r_control r <> CRst /\ r_ack_number r = Some (sq (g_iss g + g_una g + d)))).
+
+Lemma g_ack_una : forall g d al (aof : bool),
+  (g_phase g <> PSyn -> al = (if aof then d - 1 else d)) ->
+  (g_phase g = PSyn -> al = 0 /\ aof = false /\ d <= 1 /\ g_acked g = 0) ->
+  (aof = true -> g_phase g = PData) ->
+  (aof = false -> g_phase g = PFinAcked -> d = 0) ->
+  0 <= d ->
+  g_una (g_ack g d al aof) = g_una g + d /\
+  (g_phase g <> PSyn -> g_phase (g_ack g d al aof) <> PSyn).
+Proof.
+  intros g d al aof Hal Hsyn Haof Hfa Hd. unfold g_una, g_ack. cbn [g_phase g_acked].
+  destruct (g_phase g) eqn:P.
+  - destruct (Hsyn eq_refl) as (-> & -> & D1 & A0). split; [|congruence].
+    destruct (Z.eqb_spec d 0); lia.
+  - specialize (Hal ltac:(discriminate)). destruct aof; cbv iota in Hal; split; try lia; discriminate.
+  - specialize (Hal ltac:(discriminate)). destruct aof; cbv iota in Hal.
+    + specialize (Haof eq_refl). discriminate.
+    + specialize (Hfa eq_refl eq_refl). split; [lia|discriminate].
+Qed.
+
 Theorem process_inv : forall cx g s ip r s' reply tags,
   inv g s -> ctx_ok cx -> repr_ok r ->
   tcp_process cx s ip r = Ok (s', reply, tags) ->
-  exists g', inv g' s' /\ ghost_rel g g' /\ learned s r s'.
+  exists g', inv g' s' /\ ghost_rel g g' /\ learned s r s' /\ proc_ghost cx g s r g'.
 Proof.
   intros cx g s ip r s' reply tags Hinv Hcx Hr H.
   unfold tcp_process in H.
@@ -158,12 +192,13 @@ Proof.
   apply ack_check_spec in E1.
   destruct p1 as [t1 []|t1 s1 rp1].
   2: { injection H as <- <- <-. exists g. split; [eapply inv_txv; eassumption|].
-       split; [left; apply same_epoch_refl|apply learned_txv; assumption]. }
+       split; [left; apply same_epoch_refl|split; [apply learned_txv; assumption|left; reflexivity]]. }
   destruct (tcp_process_window cx s ip r) as [p2| |] eqn:E2; cbn [obind] in H; try discriminate.
   apply window_spec in E2.
   destruct p2 as [t2 [[s2 pl] po]|t2 s2 rp2].
   2: { injection H as <- <- <-. destruct E2 as (tm & E2 & Htm). exists g.
        split; [eapply inv_timer_swap; eassumption|]. split; [left; apply same_epoch_refl|].
+       split; [|left; reflexivity].
        destruct (txv_proj _ _ E2) as (_ & _ & _ & _ & B5 & _ & _ & B8 & B9 & _).
        fld_in B5. fld_in B8. fld_in B9. unfold learned. auto. }
   assert (Hinv2 : inv g s2) by (eapply inv_txv; eassumption).
@@ -178,7 +213,7 @@ Proof.
   pose proof (transition_spec _ _ _ _ _ _ _ _ E4 Hq1) as T. cbv zeta in T.
   destruct p3 as [t3 s3|t3 s3 rp3]; cbn [phase_sock is_ret] in T.
   2: { (* the table returned *)
-       injection H as <- <- <-. exists g. split; [|split; [left; apply same_epoch_refl|]].
+       injection H as <- <- <-. exists g. split; [|split; [left; apply same_epoch_refl|split; [|left; reflexivity]]].
        - destruct T as [(T & _)|[(st' & tm & T & Htm & Hrel & Hret)|[T|T]]].
          + eapply inv_txv; eassumption.
          + assert (Hc : c = CRst) by (apply Hret; reflexivity). unfold st_rel in Hrel. rewrite Hc in Hrel.
@@ -242,7 +277,7 @@ Proof.
       - assert (A2 : al > 0) by lia.
         destruct (rb_dequeue_allocated_spec _ _ _ Hwf Hal0 (D1 A2)) as (_ & _ & _ & L & _). exact L.
       - rewrite (D2 ltac:(lia)). lia. }
-    split; [|split].
+    split; [|split; [|split]].
     + eapply (ack_finish g (s_state s2) (s_remote_win_len s2) (s_remote_win_scale s2) s3 s' r d al aof aa tx').
       * rewrite C2, C3, C4, C10. exact Htx2.
       * intros Hi. rewrite C2. apply Htm2. auto.
@@ -271,6 +306,18 @@ Proof.
     + destruct Htail as (_ & _ & _ & _ & F3 & _ & F7 & F8 & _).
       unfold learned. rewrite F3, F7, F8, C8, C9, X8, X9.
       split; [right; apply learned_window_eq; left; congruence|]. auto.
+    + right. right. unfold g_ack at 1 2 3. cbn [g_iss g_stream g_fin].
+      split; [reflexivity|]. split; [reflexivity|]. split; [reflexivity|].
+      destruct (g_ack_una g d al aof) as (U1 & U2); try assumption.
+      * intros P. destruct (Hsyn P) as (A1 & A2 & A3). unfold phase_ok in Hph. rewrite P in Hph.
+        destruct Hph as (A0 & _). auto.
+      * intros X. destruct (Haof X) as (A1 & _). exact A1.
+      * intros X P. specialize (Hnaof X). rewrite P in Hnaof. exact Hnaof.
+      * split; [exact U2|]. exists d. split; [exact Hd|]. split; [exact U1|].
+        split; [intros P; destruct (Hsyn P) as (_ & _ & X); exact X|].
+        intros Hd0. split; [exact Hnrst|].
+        destruct (r_ack_number r) as [a|]; [destruct Hack as (Ea & _); rewrite Ea; reflexivity|].
+        destruct Hack as (X & _). lia.
   - (* a SYN in LISTEN or SYN-SENT *)
     assert (Hcs : r_control r = CSyn) by (apply Hq3; exact Csyn).
     assert (HT : (s_state s2 = Listen /\
@@ -313,7 +360,7 @@ Proof.
       rewrite Hf2 in Hack, Fa. destruct Hack as (-> & -> & -> & -> & _).
       set (g1 := mkGhost (cx_isn cx) [] 0 PSyn 0 false 0).
       assert (Etx : tx' = s_tx_buffer s2) by (rewrite (D2 ltac:(lia)); exact Kt).
-      exists (g_ack g1 0 0 false). split; [|split].
+      exists (g_ack g1 0 0 false). split; [|split; [|split]].
       * eapply (ack_finish g1 SynReceived (s_remote_win_len s2) (r_window_scale r) s3 s' r 0 0 false false tx');
           try exact Htl; try exact Hr; try lia; try (cbn; discriminate); try (cbn; auto; fail).
         -- rewrite Kt, K3, K4. unfold tx_inv_f, g1. cbn [g_acked g_stream g_iss g_flight g_hw].
@@ -330,6 +377,8 @@ Proof.
       * right. unfold new_epoch, g_ack, g1. cbn. auto.
       * unfold learned. rewrite F3, F7, F8, K8, K9, Hmss, X9.
         split; [right; apply learned_window_eq; right; exact Hcs|]. auto.
+      * right. left. split; [congruence|]. split; [exact Hcs|]. split; [exact P|]. split; [exact G0|].
+        split; [apply l_len_zero_nil; lia|]. unfold g_ack, g1. cbn. rewrite Z.eqb_refl. auto.
     + (* SYN-SENT *)
       rewrite Ks in Hph. unfold phase_ok in Hph. destruct (g_phase g) eqn:P; try tauto.
       destruct Hph as (A0 & L0 & G0).
@@ -339,7 +388,7 @@ Proof.
       * destruct Hack as (Eack & Eaa & Ed1). specialize (Ed1 eq_refl). subst d.
         set (g1 := mkGhost (g_iss g) (g_stream g) (g_acked g) PSyn 1 (g_fin g) (Z.max (g_hw g) 1)).
         assert (U1 : g_una g = 0) by (unfold g_una; rewrite P; reflexivity).
-        exists (g_ack g1 1 0 false). split; [|split].
+        exists (g_ack g1 1 0 false). split; [|split; [|split]].
         -- eapply (ack_finish g1 SynSent (s_remote_win_len s2) (r_window_scale r) s3 s' r 1 0 false aa tx');
              try exact Htl; try exact Hr; try lia; try (cbn; discriminate); try (cbn; auto; fail).
            ++ rewrite Kt, K3, K4, K10, Hl, seq_add_sq.
@@ -361,8 +410,13 @@ Proof.
            split; [lia|]. split; [lia|]. auto.
         -- unfold learned. rewrite F3, F7, F8, K8, K9, Hmss, X9.
            split; [right; apply learned_window_eq; right; exact Hcs|]. auto.
+        -- right. right. unfold g_ack, g1. cbn [g_iss g_stream g_fin g_phase g_acked].
+           split; [reflexivity|]. split; [reflexivity|]. split; [reflexivity|].
+           split; [congruence|]. exists 1. split; [lia|].
+           split; [unfold g_una; cbn [g_phase g_acked]; rewrite P; destruct (Z.eqb_spec 1 0); lia|].
+           split; [lia|]. intros _. split; [exact Hnrst|]. rewrite Ea. f_equal. exact Eack.
       * destruct Hack as (-> & _ & _ & -> & _).
-        exists (g_ack g 0 0 false). split; [|split].
+        exists (g_ack g 0 0 false). split; [|split; [|split]].
         -- eapply (ack_finish g SynSent (s_remote_win_len s2) (r_window_scale r) s3 s' r 0 0 false false tx');
              try exact Htl; try exact Hr; try lia; try (rewrite P; cbn; discriminate);
              try (rewrite P; cbn; auto; fail).
@@ -381,4 +435,9 @@ Proof.
            split; [lia|]. split; [lia|]. auto.
         -- unfold learned. rewrite F3, F7, F8, K8, K9, Hmss, X9.
            split; [right; apply learned_window_eq; right; exact Hcs|]. auto.
+        -- right. right. unfold g_ack. cbn [g_iss g_stream g_fin g_phase g_acked].
+           split; [reflexivity|]. split; [reflexivity|]. split; [reflexivity|].
+           split; [congruence|]. exists 0. split; [lia|].
+           split; [unfold g_una; cbn [g_phase g_acked]; rewrite P, Z.eqb_refl; lia|].
+           split; [lia|]. lia.
 Qed.
